@@ -2,6 +2,8 @@
 
 package lossy
 
+import "github.com/maypok86/otter/v2/internal/generated/node"
+
 // The lossy read buffer is outside the technique's reach (C17, interleavings). Its operations get
 // assumed contracts that say only what the sequential callers rely on: no visible state changes.
 
@@ -15,3 +17,43 @@ package lossy
 //@   callback consumer: requires [recorded-node] cb_n != nil
 //@   callback consumer: modifies node::queueType, node::prev, node::next, node::prevExp, node::nextExp, ghost_inWheel(*), ghost_inDeque(*), policy::windowWeightedSize, policy::mainProtectedWeightedSize, policy::hitsInSample, Linked::*, sketch::*, []uint64::*
 //@   own-modifies
+
+// ---------------------------------------------------------------------------------------------
+// Bounded stand-in for the sequential content of the read buffer's ring (NOT a proof, nothing about interleavings -
+// C17 stays not applicable): the real ring code is executed symbolically (`bodies`) by one goroutine: a ring is
+// created with a first node, two more are added, the ring is drained twice. Expected: the three recorded nodes are
+// handed to the consumer once each, in the order they were recorded, and a second drain hands out nothing.
+// ---------------------------------------------------------------------------------------------
+
+func bRing[K comparable, V any](nm *node.Manager[K, V], a, b, c node.Node[K, V]) (s1, s2 Status, g1, g2, g3, g4 node.Node[K, V], cnt, ln0, ln1 int) {
+	r := newRing(nm, a)
+	s1 = r.add(b)
+	s2 = r.add(c)
+	ln0 = r.len()
+	r.drainTo(func(n node.Node[K, V]) {
+		switch cnt {
+		case 0:
+			g1 = n
+		case 1:
+			g2 = n
+		case 2:
+			g3 = n
+		default:
+			g4 = n
+		}
+		cnt++
+	})
+	ln1 = r.len()
+	r.drainTo(func(n node.Node[K, V]) {
+		g4 = n
+		cnt++
+	})
+	return
+}
+
+//@ func bRing : C05
+//@   bounded one goroutine: a ring created with one node, two adds, two drains
+//@   bodies
+//@   requires nm != nil && a != nil && b != nil && c != nil && a != b && a != c && b != c
+//@   modifies *
+//@   ensures [bounded:recorded-nodes-handed-out-once-in-order] s1 == Success && s2 == Success && ln0 == 3 && ln1 == 0 && cnt == 3 && g1 == a && g2 == b && g3 == c && g4 == nil
